@@ -50,7 +50,10 @@ CoreNums(X) == /\ RIsNum(X.t) /\ RIsNum(X.pwm)
 \* Is the powertrain self-locking?  Decided by the SPECIFICATION from the chain the trace describes (a worm mating whose friction
 \* coefficient exceeds cos(alpha) tan(beta)), not read off the implementation's flag - except where the friction is not known
 \* (executions of the repository's own tests: relation attributes only) or lies within rounding distance of its threshold.
-ChainKnown == \A i \in 1..Len(Tr.elems) : Tr.elems[i].rtype # "attr"
+\* (a worm that takes part in TWO worm matings - driven by a wheel and driving another - carries the flag of whichever was
+\* declared last (C10: every declaration recomputes it); the trace does not carry that order, so the flag is then read)
+TwiceMated == \E i \in 2..(Len(Tr.elems) - 1) : Tr.elems[i].kind = "WormGear" /\ Tr.elems[i].rtype = "worm" /\ Tr.elems[i + 1].rtype = "worm"
+ChainKnown == (\A i \in 1..Len(Tr.elems) : Tr.elems[i].rtype # "attr") /\ ~TwiceMated
 SLclass == SelfLockingClass(Tr.elems)
 SL == IF ChainKnown /\ SLclass # "band" THEN SLclass = "true" ELSE Tr.selfLocking
 NumSteps(r) == RRound(RDiv(r.T, r.dt))                      \* T = n * dt (generated so)
